@@ -589,6 +589,13 @@ fn c01(args: &Args) -> ! {
             }
         }
     }
+    // stored size around the plain size (read back through the reader): 400 incompressible bytes +
+    // a run of 0..48 bytes, hint Yes
+    for comp in [Comp::Lz4(3), Comp::Lzma(1), Comp::Zstd(5)] {
+        for tail in 0..=48usize {
+            scs.push(Scenario { comp, cached: false, packaging: Packaging::Bare, pre: Pre::none(), items: vec![Item { len: 400 + tail, entropy: Entropy::Tail, hint: Hint::Yes, src: Src::Memory, tag: 40 }] });
+        }
+    }
     if !jbkmc::shard::run_children(args, &mut rep) {
         let scs = jbkmc::shard::select(args, scs);
         run_all(&mut rep, &mut acc, &scs, true, false, "c01");
